@@ -1,6 +1,7 @@
 SPECIFICATION Spec
 CONSTANTS
   BrokenMerge = TRUE
+  ValueCounts = FALSE
   DocDomain <- MCDocDomainSmall
   Reqs <- MCReqsSmall
   Queries = {"all"}
